@@ -361,6 +361,12 @@ def region_inputs(prog, cls, memo, depth=3):
                         units = True
                     if a in managed_b:
                         basis = True
+                # a units-managed property of a held axis object (a frequency axis converts its points, start and step to
+                # the current units on every read)
+                if isinstance(x, ast.Attribute) and isinstance(x.ctx, ast.Load) and x.attr in ("data", "start", "step", "min", "max") \
+                        and isinstance(x.value, ast.Attribute) and _self_attr(x.value) is not None \
+                        and "axis" in x.value.attr.lower() and not unitflow.in_int_context(pm, x):
+                    units = True
                 if top and isinstance(x, ast.Name) and isinstance(x.ctx, ast.Load) and x.id in fparams:
                     params.add(x.id)
                 if isinstance(x, ast.Call):
